@@ -371,3 +371,146 @@ class ExecuteFieldsSerially(Contract):
 
 
 CONTRACTS.append(ExecuteFieldsSerially())
+
+
+# ---- execute_fields (C01 / C08): positional merge of sequentially awaited and gathered sibling results
+from pyvc.symexec import coro_raises, coro_exc, coro_value     # noqa: E402
+from specs.outputs import exc_full_wf as _exc_full_wf            # noqa: E402
+from .c02 import AllFOV, NotME, failure_or_value                 # noqa: E402
+
+FDof = z3.Function('FieldDefinitionOf', V, V)        # get_field_definition(schema, parent type, name): the field definition or None
+CoroOf = z3.Function('ResolutionOf', V, V, V)        # (field nodes, response key): the coroutine resolving and completing that field
+
+
+def _fname(nodes):
+    return attr0(attr0(nth(V.items(nodes), 0), 'name'), 'value')
+
+
+def _fd(p):
+    return FDof(_fname(V.snd(p)))
+
+
+def _co(p):
+    return CoroOf(V.snd(p), V.fst(p))
+
+
+def _conc(p):
+    return py_truthy(attr0(_fd(p), 'parent_concurrently'))
+
+
+def _outcome(c):
+    return z3.If(coro_raises(c), coro_exc(c), coro_value(c))
+
+
+def slot_final(p):
+    """what ends up at the position of entry p: UNDEFINED for an unknown field, else the outcome of its own resolution"""
+    return z3.If(_fd(p) == V.None_, V.Undef, _outcome(_co(p)))
+
+
+def slot_first_pass(p):
+    return z3.If(_fd(p) == V.None_, V.Undef, z3.If(_conc(p), V.None_, coro_value(_co(p))))
+
+
+def exec_entry_wf(p):
+    nodes, fd, c = V.snd(p), _fd(p), _co(p)
+    first = nth(V.items(nodes), 0)
+    return z3.And(V.is_Pair(p), V.is_Str(V.fst(p)), V.is_List(nodes), z3.Not(VL.is_nil(V.items(nodes))), exact(first, 'FieldNode'), V.oref(first) >= 0,
+                  exact(attr0(first, 'name'), 'NameNode'), V.oref(attr0(first, 'name')) >= 0, V.is_Str(_fname(nodes)),
+                  z3.Or(fd == V.None_, z3.And(exact(fd, 'GraphQLField'), V.oref(fd) >= 0, V.is_Fun(attr0(fd, 'resolver')),
+                                              z3.Or(V.is_Bool(attr0(fd, 'parent_concurrently')), attr0(fd, 'parent_concurrently') == V.None_))),
+                  # what a field's resolution yields (C02 contracts): a completed value that is no exception and no sentinel, or a well-formed MultipleException
+                  exact(c, 'coroutine'), z3.Not(inst(coro_value(c), 'Exception')), coro_value(c) != V.Undef, coro_value(c) != V.Missing,
+                  exact(coro_exc(c), 'MultipleException'), _exc_full_wf(coro_exc(c)))
+
+
+AllExecEntries = ForallList('execute_fields_entry', exec_entry_wf)
+AllAwaitEntries = ForallList('to_await_entry', lambda p, items: z3.And(V.is_Pair(p), V.is_Int(V.fst(p)), V.i(V.fst(p)) >= 0, V.i(V.fst(p)) < length(items),
+                                                                        V.snd(p) == _co(nth(items, V.i(V.fst(p)))), _conc(nth(items, V.i(V.fst(p)))),
+                                                                        _fd(nth(items, V.i(V.fst(p)))) != V.None_), (VL,))
+
+
+class ExecuteFields(Contract):
+    """execute_fields: whatever the per-field concurrency flags, position j of the result list ends up holding the outcome of field j's own
+    resolution (positional merge after the gather), unknown fields are dropped, any failure is re-raised as a gathered MultipleException,
+    and the response map pairs each key with its own result.  Proved for an arbitrary index j0 (hence for all)."""
+    key = 'tartiflette/execution/execute.py::execute_fields'
+    property_ids = ('C08', 'C01', 'C02')
+    params = ['execution_context', 'parent_type', 'source_value', 'path', 'fields', 'is_introspection_context']
+    timeout_ms = 15000
+    prune_ms = 1000
+
+    def args(self, en, names):
+        self.A = super().args(en, names)
+        self.j0 = z3.Int('j0')
+        return self.A
+
+    def items(self, A=None):
+        return V.ditems((A or self.A)['fields'])
+
+    def pre(self, A, st):
+        items = self.items(A)
+        x = z3.Int('ux_')
+        return [('fields', z3.And(V.is_Dict(A['fields']), AllExecEntries(items))),
+                ('context', z3.And(exact(A['execution_context'], 'ExecutionContext'), V.oref(A['execution_context']) >= 0)),
+                ('arbitrary_position', z3.And(self.j0 >= 0, self.j0 < length(items))),
+                # dict keys are unique (well-formedness of a Python dict)
+                ('dict_keys_unique', z3.ForAll([x], z3.Implies(z3.And(x >= 0, x < length(items), V.fst(nth(items, x)) == V.fst(nth(items, self.j0))), x == self.j0),
+                                               patterns=[nth(items, x)]))]
+
+    def extra_env(self, en, A):
+        return {'get_field_definition': PyFunc('get_field_definition', lambda en, st, a, kw: [(st, FDof(en.read(a[2], st)))])}
+
+    def call_model(self, en, st, f, a, kw):
+        f = z3.simplify(f)
+        if z3.is_app(f) and f.decl().kind() == z3.Z3_OP_SELECT and f.arg(0).eq(field0('resolver')):
+            nodes = en.read(a[3], st)
+            key = attr0(en.read(a[4], st), 'key')
+            return [(st, CoroOf(nodes, key))]      # an un-awaited coroutine object
+        return None
+
+    def _p0(self):
+        return nth(self.items(), self.j0)
+
+    def _inv0(self, en, st, k, st0):
+        items, j0 = self.items(), self.j0
+        res = V.items(en.read(st.env['results'], st))
+        ta = V.ditems(en.read(st.env['to_await'], st))
+        p0 = self._p0()
+        return {'positional': length(res) == k,
+                'first_pass_slot': z3.Implies(j0 < k, nth(res, j0) == slot_first_pass(p0)),
+                'sequential_ones_did_not_fail': z3.Implies(z3.And(j0 < k, _fd(p0) != V.None_, z3.Not(_conc(p0))), z3.Not(coro_raises(_co(p0)))),
+                'pending_by_position': lookup(ta, V.Int(j0)) == z3.If(z3.And(j0 < k, _fd(p0) != V.None_, _conc(p0)), _co(p0), V.Missing),
+                'pending_entries': AllAwaitEntries(ta, items), 'results_are_values': AllFOV(res)}
+
+    def _inv1(self, en, st, m, st0):
+        items, j0 = self.items(), self.j0
+        res = V.items(en.read(st.env['results'], st))
+        ta = V.ditems(en.read(st.env['to_await'], st))
+        p0 = self._p0()
+        done = lookup(take(ta, m), V.Int(j0)) != V.Missing
+        return {'positional': length(res) == length(items),
+                'merged_by_position': nth(res, j0) == z3.If(done, _outcome(_co(p0)), slot_first_pass(p0)),
+                'results_are_values_or_failures': AllFOV(res)}
+
+    def _invd(self, en, st, k, st0):
+        items, j0 = self.items(), self.j0
+        d = V.ditems(en.read(st.env['__dictcomp0'], st))
+        p0 = self._p0()
+        return {'key_paired_with_its_own_result': lookup(d, V.fst(p0)) == z3.If(z3.And(j0 < k, slot_final(p0) != V.Undef), slot_final(p0), V.Missing)}
+
+    @property
+    def loops(self):
+        return {0: LoopContract(self._inv0), 1: LoopContract(self._inv1), ('dictcomp', 0): LoopContract(self._invd)}
+
+    def post(self, A, st0, out):
+        items = self.items(A)
+        p0 = nth(items, self.j0)
+        if out.kind == 'raise':
+            return [('a_gathered_or_immediate_failure', z3.And(exact(out.value, 'MultipleException'), _exc_full_wf(out.value)))]
+        r = out.value
+        return [('is_map', V.is_Dict(r)),
+                ('each_key_paired_with_its_own_result', lookup(V.ditems(r), V.fst(p0)) == z3.If(slot_final(p0) != V.Undef, slot_final(p0), V.Missing)),
+                ('no_failure_is_swallowed', z3.Implies(_fd(p0) != V.None_, z3.Not(coro_raises(_co(p0)))))]
+
+
+CONTRACTS.append(ExecuteFields())
